@@ -94,6 +94,48 @@ def dec_line(kind, maxsz, text):
     return "dec %x %x %x %x %x %s" % (kind[0], kind[1], kind[2], kind[3], maxsz, cc.hx(text))
 
 
+def short_stream_cases(rng, add):
+    """The lower boundary of sc_io_nonuncompress (theorems C07_nonuncompress_short_input / _sourcelen_no_wrap; seeded/C07e):
+    well-formed texts (NUL, line breaks, 8-byte size header, 'z') whose compressed section has EVERY length 0..12 - in particular
+    2..6: a valid zlib header and 0..4 bytes behind it, where `sourcelen = src_size - 4` would wrap - with final / non-final stored,
+    fixed and dynamic block starts, fills on which a decoder that has lost its input bound does not stop (0xbe = ASan's malloc fill
+    decodes as fixed-code literals for ever), size headers 0 / 1 / small / 4096 and every output kind."""
+    starts = [0x01, 0x00, 0x03, 0x02, 0xbb, 0xba, 0x05, 0x04, 0xbd, 0xed]     # BFINAL/BTYPE in the low three bits
+    fills = [0xbe, 0x00, 0xff, 0x55]
+    kinds = [(0, 1, 1, 0), (0, 1, 4, 0), (0, 1, 1, 5), (0, 0, 1, 4096), (0, 0, 2, 0), (0, 0, 1, 1), (1, 1, 1, 0), (1, 0, 1, 0)]
+    zh = [(0x78, 0x01), (0x78, 0x9c), (0x78, 0xda), (0x78, 0x5e), (0x08, 0x1d)]
+    k = 0
+    for size in (0, 1, 3, 57, 4096):
+        for n in range(0, 13):
+            for st in starts:
+                fill = fills[0] if (k % 2 == 0) else fills[(k // 2) % len(fills)]
+                for hdr in ([zh[0]] if (k % 3) else [zh[0], zh[1 + k % (len(zh) - 1)]]):
+                    comp = (bytes(hdr) + bytes([st]) + bytes([fill]) * 12)[:n]
+                    t = text_of(size, comp, rng.choice([61, 61, 10, 0x41]))
+                    # zlib header + 0..4 bytes: every output kind; elsewhere two of them
+                    for j in (range(len(kinds)) if (2 <= n <= 6 and hdr == zh[0]) else range(2)):
+                        add(t, "short-stream:%d" % n, kind=kinds[(k + 3 * j) % len(kinds)], maxsz=rng.choice([0, 0, size, size + 1]))
+                k += 1
+                if n <= 2:
+                    break               # no block start inside a compressed section of 0..2 bytes
+    # the deflate stream is there but the adler32 trailer is cut at every length 0..4 (valid stored / fixed / dynamic streams)
+    for d in (b"", b"a", b"abc", b"aaaaaaaaaaaaaaaaaaaaaaaaaaaaaaaaaaaaaaaaaaaaaaaa"):
+        for comp in (cc.py_stored(d), raw_zlib(d, 9, zlib.Z_FIXED), zlib.compress(d, 9)):
+            for cut in range(0, 5):
+                add(text_of(len(d), comp[:len(comp) - cut] if cut else comp, 61), "short-trailer:%d" % cut, kind=kinds[(k + cut) % len(kinds)], maxsz=0)
+            k += 1
+
+
+def head_cut_cases(rng, add, texts):
+    """valid texts cut at EVERY byte position of the first 24 characters: raw (with a NUL appended) and re-terminated as a
+    well-formed one-line text (break byte, newline, NUL)"""
+    kinds = [(0, 1, 1, 0), (0, 0, 1, 64), (1, 1, 1, 0), (0, 1, 2, 3)]
+    for i, t in enumerate(texts):
+        for k in range(0, 25):
+            add(t[:k] + b"\0", "head-cut", kind=kinds[(i + k) % len(kinds)], maxsz=0)
+            add(t[:k] + b"=\n\0", "head-cut-line", kind=kinds[(i + k + 1) % len(kinds)], maxsz=0)
+
+
 def gen_dec_cases(ctx):
     rng = ctx.rng
     cases = []          # dict(line, text, kind, maxsz, tag, huge)
@@ -225,6 +267,11 @@ def gen_dec_cases(ctx):
         for ns in (1032 * (9 + len(comp)) + 1031, 1032 * (9 + len(comp) + 1), len(d)):
             t = text_of(ns, comp, 61)
             cases.append(dict(line=dec_line((0, 1, 1, 0), 0, t), text=t, kind=(0, 1, 1, 0), maxsz=0, tag="ratio-boundary"))
+    # the lower boundary of sc_io_nonuncompress: compressed sections of every length 0..12, trailers cut at 0..4 bytes;
+    # valid texts cut at every position of their first 24 characters
+    short_stream_cases(rng, add)
+    heads = [text_of(len(d), comp, 61) for d in (b"", b"abc", bytes(100)) for comp in (zlib.compress(d, 9), cc.py_stored(d))]
+    head_cut_cases(rng, add, heads)
     return cases
 
 
@@ -778,7 +825,10 @@ def run(ctx):
                        "structure-aware DEFLATE header fuzz (block types 0..3, random HLIT/HDIST/HCLEN, code-length codes all-zero / single / two of length 1 / complete / over-subscribed / "
                        "incomplete / random, length sequences with repeat codes first and overshooting runs, tails of 0..800 random/zero/0xff bytes) directly and inside a zlib+armor wrapper; "
                        "the regression inputs of zlib's contrib/puff; every length code and every distance code of the tables of codes () with smallest / largest extra bits "
-                       "behind a stored prefix, at distance = bytes written / one more and output space = needed / one less (aimed at the case splits of C07_gen_codes_*). "
+                       "behind a stored prefix, at distance = bytes written / one more and output space = needed / one less (aimed at the case splits of C07_gen_codes_*); "
+                       "well-formed texts whose compressed section has every length 0..12 (zlib header + 0..4 bytes: the boundary of C07_nonuncompress_short_input) x 10 block starts "
+                       "(final / non-final stored, fixed, dynamic) x fills 0xbe/00/ff/55 x size headers 0,1,3,57,4096 x 8 output kinds (owner with NULL array, views, in place), "
+                       "adler32 trailers cut at 0..4 bytes, valid texts cut at every position of their first 24 characters (raw and re-terminated). "
                        "A case is non-trivial if its text has more than 3 bytes; distinct = distinct case lines" % (5 if ctx.quick else 7))
     ctx.cov["exhaustive"] = False
     for gname in ("PuffC07", "DecodeC07"):
